@@ -39,14 +39,57 @@ def is_dropped_recovery_witness(lines):
             cur = int(op[1])
         elif op[0] == "T":
             cur = None
-        if cur == 64 and op[0] in ("N", "q", "+") and env[18] == 0 and (env[11] == 0 or env[12] == 0) and events == "-":
+        if cur == 64 and op[0] in ("N", "q", "+") and env[18] == 0 and (env[11] == 0 or env[12] == 0) and env[13] == 0 and events == "-":
             dropped = True
         elif dropped and any(ev.split(":")[0] in ("16", "64") and ev.split(":")[2] == "1" for ev in events.split(",") if ev != "-"):
             return True
     return False
 
 
-CLASSIFIERS = {DROPPED: is_dropped_recovery_witness}
+# F-C03c: with interval 0 a notification of another type than Problem / Custom / Recovery that passes the notification-level
+# filters resets no_more_notifications (notification.cpp:394-397), and the next timer run sends a reminder although a
+# Problem has been sent for the incident.  Class decided by the driver (strict reading rejects, the code's reading
+# accepts); the minimised witness must show, for one notification object with interval <= 0: a passed event of such a
+# type, then a reminder, with no Recovery event in between.
+REARMED = "interval0_rearmed_by_other_notification_type"
+REARMING_TYPES = ("1", "2", "4", "16", "128", "256")
+
+
+def is_interval0_rearm_witness(lines):
+    intervals = []          # per notification object
+    rearmed = {}
+    for l in lines:
+        w = l.split()
+        if not w:
+            continue
+        if w[0] == "C" and " | " not in l:
+            intervals = [int(w[2])]
+            rearmed = {}
+            continue
+        if w[0] == "O" and " | " not in l:
+            intervals.append(int(w[1]))
+            continue
+        o = _obs(l)
+        if o is None:
+            continue
+        op, env, events = o
+        k = int(op[1]) if op[0] == "+" else 0
+        if k >= len(intervals) or intervals[k] > 0:
+            continue
+        for ev in events.split(","):
+            if ev == "-":
+                continue
+            ty, rem, passed = ev.split(":")[:3]
+            if ty == "64":
+                rearmed[k] = False
+            elif passed == "1" and ty in REARMING_TYPES:
+                rearmed[k] = True
+            elif ty == "32" and rem == "1" and rearmed.get(k):
+                return True
+    return False
+
+
+CLASSIFIERS = {DROPPED: is_dropped_recovery_witness, REARMED: is_interval0_rearm_witness}
 
 
 def classify(clause, lines, kv=None):
@@ -81,6 +124,7 @@ SEEDED_CHANGES = [
     "no_more_notifications := true dropped [interval_zero_no_reminder_after_problem]",
     "notified_problem_users not cleared after a sent Recovery [recovery_ack_only_to_users_sent_a_problem_this_incident]",
     "next_notification := now + interval / 2 [reminder_at_least_interval_after_last_problem]",
+    "seeded/C03-1..9 (round 3): all reported with a spec clause, see tools/seeded_auto.json",
 ]
 
 
@@ -89,8 +133,9 @@ class C03(StdCheck):
     exhaustive = True
     required_theorems = ["delivery_only_if", "recovery_ack_recipients_partial", "recovery_ack_recipients_counterexample",
                          "dropped_recovery_request_is_a_noop", "no_duplicate_problem",
-                         "reminder_only_in_hard_unsuppressed_problem", "reminder_spacing", "model_trace_meets_spec_partial",
-                         "model_trace_other_clauses", "model_trace_meets_spec_counterexample"]
+                         "reminder_only_in_hard_unsuppressed_problem", "reminder_spacing_partial",
+                         "reminder_spacing_positive_interval", "reminder_spacing_rearmed", "reminder_interval0_counterexample",
+                         "model_trace_meets_spec_partial", "model_trace_other_clauses", "model_trace_meets_spec_counterexample"]
     technique = ("Lean 4 proof (five independent checkers over the observed trace, each tied to the code's bookkeeping attributes by an "
                  "invariant; composition of BeginExecuteNotification calls incl. the replay of stashed requests; induction over operation "
                  "sequences); correspondence by exhaustive + random differential execution of the path OnNotificationsRequested -> started "
@@ -103,18 +148,32 @@ class C03(StdCheck):
                   "phase) and timer runs, under arbitrary environments at every step (state, state type, last hard state change, volatile, "
                   "reachability, downtime, acknowledgement, flapping, pending bits, period bits, enable flags, pause, object authority, any list "
                   "of users with arbitrary enable flags, periods and filters) the model's deliveries satisfy the executable specification of the "
-                  "property's three sentences; the model is tied to the code by running the real functions on generated operation sequences "
-                  "and diffing events, executed commands and the bookkeeping attributes of every notification object after every operation; "
-                  "the same specification is evaluated on the implementation's own trace")
+                  "property's three sentences - without hypothesis for the first sentence (delivery_only_if), the duplicate clause "
+                  "(no_duplicate_problem), the reminder conditions and spacing (reminder_only_in_hard_unsuppressed_problem, "
+                  "reminder_spacing_positive_interval, reminder_spacing_rearmed) and every clause but two of the whole specification "
+                  "(model_trace_other_clauses); with the exact extra hypothesis for the two clauses the unchanged code violates "
+                  "(recovery_ack_recipients_partial + _counterexample: F-C03b; reminder_spacing_partial + reminder_interval0_counterexample: "
+                  "F-C03c; model_trace_meets_spec_partial + _counterexample); the model is tied to the code by running the real functions on "
+                  "generated operation sequences and diffing events, executed commands and the bookkeeping attributes of every notification "
+                  "object after every operation; the same specification is evaluated on the implementation's own trace")
     level_note = ("Trusted: Lean kernel (+ propext, Classical.choice, Quot.sound), harness/driver; checkable facts and period open/closed bits "
-                  "are oracle inputs read from the implementation. The model transcribes the code after the fix: commit cec0506 for F-C03a "
-                  "(known_findings.json, status fixed); all three sentences are proved without hypothesis. 'Current incident' is read as: since "
-                  "the last Recovery the notification object sent or discarded by its type filter - a Recovery merely withheld by the closed "
-                  "notification period does not end it (it is re-sent later to exactly the incident's users). The third sentence's 'neither "
-                  "suppressed' is read to cover a Problem that is still held back: no reminder while the checkable's Problem bit is pending "
-                  "(after a suppression) and none in a timer run after which the notification object still holds a Problem back (after a closed "
-                  "period) - clause no_reminder_while_the_initial_problem_is_held_back. Reminder spacing is stated for stretches without a hard "
-                  "state change and with a monotone clock (Q-C03); only unforced Problems start a spacing obligation.")
+                  "are oracle inputs read from the implementation. The model transcribes the code after the fix cec0506 for F-C03a (status "
+                  "fixed). 'Current incident' is read as: it ends when the notification object sends a Recovery or discards it by its type "
+                  "filter, AND when the checkable requests a Recovery that Checkable::SendNotifications drops because notifications are switched "
+                  "off (the request type of every send operation is part of the observed trace) - the code keeps notified_problem_users / "
+                  "last_notified_state_per_user across such a dropped request: known finding F-C03b, carried as _partial (hypothesis: no "
+                  "Recovery request is dropped by the enable flags) + _counterexample; a Recovery merely withheld by the closed notification "
+                  "period does not end the incident (it is re-sent later to exactly the incident's users). Interval 0 is read as stated "
+                  "('none once a Problem has been sent for the incident' = until a Recovery is processed); the code re-arms the reminder on "
+                  "every other passed type but Custom: known finding F-C03c, carried as _partial (hypothesis: no such event, vacuous for "
+                  "interval > 0) + _counterexample, and the code's weaker reading is proved without hypothesis (reminder_spacing_rearmed). Both "
+                  "findings are classified by the Lean driver, which runs the weaker reading beside the specification: only a failure the "
+                  "weaker reading accepts, whose minimised witness shows the dropped request / the re-arming event, is a KNOWN-FINDING; every "
+                  "other failure of the same clauses is a VIOLATION. The third sentence's 'neither suppressed' is read to cover a Problem that "
+                  "is still held back: no reminder while the checkable's Problem bit is pending (after a suppression) and none in a timer run "
+                  "after which the notification object still holds a Problem back (after a closed period) - clause "
+                  "no_reminder_while_the_initial_problem_is_held_back. Reminder spacing is stated for stretches without a hard state change and "
+                  "with a monotone clock (Q-C03); only unforced Problems start a spacing obligation.")
     trusted_base = [
         "modelled, not verified: command execution itself, cluster sync of the bookkeeping attributes; several notification objects per "
         "checkable are independent copies of the one-object model (the harness checks that independence on 1-3 real objects)",
